@@ -392,7 +392,7 @@ func TestCheck(t *testing.T) {
 		}
 	}()
 
-	n := run.N(20000, 2000000)
+	n := run.N(20000, 5000000)
 	run.Each(n, par, func(i int) {
 		e := <-pool
 		defer func() { pool <- e }()
